@@ -144,7 +144,10 @@ func VerifC13_settlement() {
 	M := int64(1000000)
 	lhs := E1.MulRaw(M).Sub(dust1)                          // escrow left minus the dust it backs
 	rhs := E0.Sub(S.MulRaw(2)).MulRaw(M).Sub(d0).Add(dd.VoterReward.MulRaw(M)) // other funds + voters' pot
-	ndAssert(lhs.Equal(rhs), "escrow-left-is-exactly-the-voters-pot-and-the-carried-dust")
+	// exact when every quotient is exact (slash amount 10^6); in general each payer's refund is truncated to a whole
+	// 10^-6 loya before the remainder is carried as dust, so escrow keeps up to one such micro-unit per payer more than
+	// the carried dust accounts for - never less
+	ndAssert(lhs.GTE(rhs) && lhs.Sub(rhs).LT(math.NewInt(int64(2*n))), "escrow-left-is-the-voters-pot-and-the-carried-dust-up-to-a-micro-unit-per-payment")
 	ndAssert(E1.GTE(dd.VoterReward), "escrow-covers-the-unclaimed-voter-rewards")
 	// nothing was created: escrow decrease = burned + to bonded pool + to accounts
 	ndAssert(E0.Sub(E1).Equal(bank.burned.Add(bank.modBal("bonded_tokens_pool")).Add(toAccounts)), "escrow-decrease-equals-burn-plus-stake-plus-refunds")
